@@ -80,7 +80,7 @@ def gen_layout(rng, batch):
         if batch == 'persistent' and not feats & set(PERSISTENT_FEATURES):
             feats.add(rng.choice(PERSISTENT_FEATURES))
     b = LayoutBuilder(rng)
-    basename = rng.choice(['base', 'base', 'doc', 'in', 'Base', 'Proj'])
+    basename = rng.choice(['base', 'base', 'doc', 'in', 'Base', 'Proj', 'paper:v2', 'my docs', 'a,b', 'x;y'])
     parent = W + ('/p' if 'deep_base' in feats else '')
     base = parent + '/' + basename
     b.d(W)
@@ -118,6 +118,16 @@ def gen_layout(rng, batch):
             b.d(sd)
             outs.append(b.f(sd + '/secret.tex') and sd + '/secret.tex')
 
+    if any(ch in basename for ch in ':,; '):
+        # what a careless split of the directory name at a separator character would look at
+        import re as _re
+        parts = [x for x in _re.split('[:,; ]', basename) if x]
+        pre = parent + '/' + parts[0]
+        b.d(pre)
+        outs.append(b.f(pre + '/secret.tex') and pre + '/secret.tex')
+        outs.append(b.f(pre + '/a.tex') and pre + '/a.tex')
+        b.d(parent + '/' + parts[-1])
+        outs.append(b.f(parent + '/' + parts[-1] + '/secret.tex') and parent + '/' + parts[-1] + '/secret.tex')
     if 'case_sibling' in feats:
         # siblings whose names differ from the directory's only in letter case
         variants = [v for v in (basename.lower(), basename.upper(), basename.capitalize(), basename.swapcase())
@@ -336,6 +346,14 @@ def gen_name(rng, fs, res, basenode, layout):
                 break
     elif x < 0.50:
         name = name + rng.choice(['.tex', '.latex', 'x', '/', '/.', '/..'])
+    if rng.random() < 0.08 and not name.startswith('/'):
+        # a component that cannot be looked up (missing, too long, a link loop, a dangling link,
+        # an unsearchable directory), stepped out of again with '..'
+        x0 = rng.choice(['nosuch', 'nosuch/deeper/..', 'n' * 300, 'loop1', 'selfloop', 'dang', 'locked',
+                         'a.tex', 'sub/nosuch'])
+        comps = name.split('/')
+        k = rng.randrange(len(comps))
+        name = '/'.join(comps[:k] + [x0, '..'] + comps[k:])
     y = rng.random()
     if y < 0.05:
         name = './' + name
@@ -522,11 +540,18 @@ def execute(program):
                     l2t.tex_input_directory = dirspec
                     l2t.strict_input = strict
                 else:
-                    with mount:
-                        if strict and opi % 2:
-                            l2t.set_tex_input_directory(dirarg)          # strict_input defaults to True
-                        else:
-                            l2t.set_tex_input_directory(dirarg, strict_input=strict)
+                    try:
+                        with mount:
+                            if strict and opi % 2:
+                                l2t.set_tex_input_directory(dirarg)          # strict_input defaults to True
+                            else:
+                                l2t.set_tex_input_directory(dirarg, strict_input=strict)
+                    except simfs.SimUnsupported as e:
+                        raise core.HarnessError("unsupported simulated system call: %s" % e)
+                    except Exception as e:
+                        raise Violation('availability', op_index=opi, name=None, via='set_tex_input_directory',
+                                        dirspec=dirspec, observed='set_tex_input_directory raised ' + repr(e),
+                                        expected='the directory is accepted')
                 stats.inc('op:set_dir-' + mode)
                 trace.append(['set_dir', dirspec, strict, mode])
                 continue
@@ -594,8 +619,12 @@ def execute(program):
                         text = l2t.latex_to_text('\\%s{%s}' % (via, name))
             except simfs.SimUnsupported as e:
                 raise core.HarnessError("unsupported simulated system call: %s" % e)
-            except (OSError, UnicodeDecodeError, ValueError, RecursionError) as e:
+            except Exception as e:
+                # whatever the code under test raises is an outcome, never a harness error:
+                # it is judged by the oracles below (nothing was returned)
                 exc = e
+                if not isinstance(e, (OSError, UnicodeDecodeError, ValueError, RecursionError)):
+                    stats.inc('probe:unexpected-exception-type')
             finally:
                 fs.disarm()
             if mount.unsupported:
